@@ -383,6 +383,11 @@ def r8(text, ctx):
             if t.kind == 'ident' and t.text == 'Box' and i + 3 < len(toks) and toks[i + 1].text == '::' and toks[i + 2].text == 'new' and toks[i + 3].text == '(':
                 k = match_close(toks, i + 3)
                 inner = text[toks[i + 3].end:toks[k].start].strip().rstrip(',').strip()
+                hs = [a.split()[1] for a in ctx.rule_args.get('R8', []) if a.startswith('hashset ')]
+                mhs = re.match(r'^([A-Za-z_][A-Za-z0-9_]*)\.into_iter\(\)$', inner)
+                if mhs and mhs.group(1) in hs:
+                    hit = (i, k, 'verif_set_into_vec_iter(%s)' % mhs.group(1))
+                    break
                 if re.search(r'\.into_iter\(\)$', inner):
                     hit = (i, k, inner)
                     break
